@@ -18,6 +18,7 @@
 EXTENDS Elf, TLC
 
 CONSTANTS MaxSecs, MaxSyms, MaxRels, MaxSegs,
+          Lite,               \* TRUE: one choice for the first section (quick tier)
           Sample, PosMod      \* Tamper / Damage: on every Sample-th state (by file length), every PosMod-th byte
 
 \* o = the abstract object; file = Encode(o) and view = Read(file) are kept in the state so that TLC
@@ -135,8 +136,9 @@ Big(c64) == IF c64 THEN <<5, 0, 0, 0, 1, 0, 0, 128>> ELSE <<252, 255, 255, 255, 
 SecNames == <<(<<97>>), (<<98, 99>>)>>
 SymNames == <<(<<120>>), (<<121, 122>>)>>
 SecChoices(k, et, c64) ==
-    IF k = 1 THEN {[data |-> d, addr |-> a] : d \in {<<1, 2, 3>>, <<>>},
-                                              a \in IF et = ET_REL THEN {WZero(8)} ELSE {N8(4096), Big(c64)}}
+    IF k = 1 THEN {[data |-> d, addr |-> a] : d \in IF Lite THEN {<<1, 2, 3>>} ELSE {<<1, 2, 3>>, <<>>},
+                                              a \in IF et = ET_REL THEN {WZero(8)}
+                                                    ELSE IF Lite THEN {Big(c64)} ELSE {N8(4096), Big(c64)}}
     ELSE {[data |-> <<7>>, addr |-> IF et = ET_REL THEN WZero(8) ELSE N8(8197)]}
 
 Init0 == \E c64 \in BOOLEAN, be \in BOOLEAN, et \in {ET_REL, ET_EXEC} :
